@@ -329,6 +329,14 @@ class Walker:
                             else:
                                 self._walk(t["target"], env2, fenv2, c2, ev2, k2, blocks, onpath)
                         return
+                if not self.canon and t.get("fn") in ("std::ops::Try::branch", "core::ops::Try::branch") and len(args) == 1 and t["target"] is not None and \
+                        args[0][0] == "agg" and args[0][1] == "adt" and args[0][2] in ("std::result::Result::Ok", "std::result::Result::Err", "std::option::Option::Some", "std::option::Option::None"):
+                    # `?` on a value whose variant is known (it was built by a helper this walk has just seen through)
+                    v = args[0][2].rsplit("::", 1)[-1]
+                    cf = ("agg", "adt", "std::ops::ControlFlow::Continue", (args[0][3][0],)) if v in ("Ok", "Some") else ("agg", "adt", "std::ops::ControlFlow::Break", (args[0],))
+                    self.assign(t["dest"], cf, env, fenv, events, bi)
+                    bi = t["target"]
+                    continue
                 inl = self.inline_candidate(t)
                 clo_map = None
                 if inl is None:
@@ -627,6 +635,7 @@ STD_ADTS = {
     "std::option::Option": {"variants": [{"name": "None", "discr": 0}, {"name": "Some", "discr": 1}]},
     "std::ops::ControlFlow": {"variants": [{"name": "Continue", "discr": 0}, {"name": "Break", "discr": 1}]},
     "std::cmp::Ordering": {"variants": [{"name": "Less", "discr": -1}, {"name": "Equal", "discr": 0}, {"name": "Greater", "discr": 1}]},
+    "polonius_the_crab::PoloniusResult": {"variants": [{"name": "Borrowing", "discr": 0}, {"name": "Owned", "discr": 1}]},
 }
 
 
@@ -802,6 +811,10 @@ def subst_path(p, mapping, at_block=None, site=None):
             ev.append(("inlined", e[1], tuple(subst_params(a, mapping, memo) for a in e[2]), at_block if at_block is not None else e[3]) + tuple(e[4:]))
         elif e[0] == "cond":
             ev.append(("cond", subst_params(e[1], mapping, memo), e[2]))
+        elif e[0] == "write":
+            ev.append(("write", subst_params(e[1], mapping, memo), subst_params(e[2], mapping, memo), at_block if at_block is not None else e[3]))
+        elif e[0] == "setdiscr":
+            ev.append(("setdiscr", subst_params(e[1], mapping, memo)) + tuple(e[2:]))
         else:
             ev.append(e)
     return Path([(subst_params(c[0], mapping, memo), c[1], at_block if at_block is not None else c[2]) for c in p.conds], ev,
